@@ -21,6 +21,7 @@ import (
 
 func init() {
 	sim.Register(&sim.Check{
+		HangIsViolation: true, HangS: 90,
 		ID: "C36", Title: "Finalization picks the common ancestor and extends a single chain", World: "consensus",
 		Gen: genC36, Exec: execC36,
 		Quick:    sim.Budget{Runs: 480, WallS: 25},
